@@ -25,6 +25,8 @@ PROP = Prop(
                  "gap ranges are well-formed, pairwise disjoint, of type gap (0) or release (2), and contain no decided user entry (what processSharePartition / "
                  "releaseUndeliverable enqueue)",
                  "statuses passed to tryAck are 1..4 (Record.Ack / MarkAcks reject anything else)",
+                 "reachability of the failing class in the real flow was shown outside the check (harness/cmd/c12/e2eprobe: transactional topic, poll all, accept all -> "
+                 "ShareFetch piggybacks [0,2][4,5][3,3][6,6]); that probe also shows kfake losing the piggybacked ack error when the ShareFetch long-polls",
                  "PROTOCOL HALF NOT COVERED: at-most-once delivery of a final ack to the broker, no redelivery after a confirmed accept/reject, auto-accept at the "
                  "next poll, release on close and the FlushAcks/callback ordering are not checked by this plug-in"],
     partial="The ordering clause is FALSE of the current code (build_ascending_false, decided witness entries {10,11 accept} + gap [5,9] -> [10,11],[5,9]): "
